@@ -72,17 +72,26 @@ Definition close_releases_full : Prop :=
 Lemma close_releases : close_releases_full.
 Proof. intros evs s Hr Hc. apply (wake_or_helper evs Hr). right. left. exact Hc. Qed.
 
-(* ... and that closer's next step is ENABLED and closes closeNotifyCh (in particular Stream.close notifies
-   BEFORE it waits for a running callback goroutine: a reader parked inside that callback cannot hold it up) *)
+(* ... and that closer is not held up by the reader: within two of ITS OWN steps, enabled whatever the reader
+   does, closeNotifyCh is closed.  In particular, with callbacks installed Stream.close notifies BEFORE it waits
+   for the callback goroutine (a reader parked inside OnData cannot block it); without callbacks its clean()
+   does not wait for anything. *)
 Lemma close_helper_enabled : forall s,
   ppc s = true \/ lc_mid_open (lc s) = true \/ dpc s = true ->
-  exists e, is_reader_ev e = false /\ closeN (step s e) = true.
+  exists es, (length es <= 2)%nat /\ forallb (fun e => negb (is_reader_ev e)) es = true /\ closeN (run es s) = true.
 Proof.
   intros s [H|[H|H]].
-  - exists PClose2. split; [reflexivity|]. unfold step; cbn [step_gen]. rewrite H. reflexivity.
-  - exists LNotify. split; [reflexivity|]. unfold step; cbn [step_gen]. unfold lc_mid_open in H.
-    destruct (lc s) as [| |o|o|o|o]; try discriminate; destruct o; try discriminate; cbn; rewrite ?orb_true_r; reflexivity.
-  - exists LDefer2. split; [reflexivity|]. unfold step; cbn [step_gen]. rewrite H. reflexivity.
+  - exists [PClose2]. split; [cbn; lia|]. split; [reflexivity|]. unfold run; cbn [fold_left]. unfold step; cbn [step_gen]. rewrite H. reflexivity.
+  - unfold lc_mid_open in H.
+    destruct s as [pend0 rbuf0 token0 closeN0 ss0 epc0 ppc0 lc0 sclosing0 dpc0 cbmode0 now0 dl0 tmr0 tch0 ptick0 use_t0 armed0 rd0 minsz0 res0].
+    cbn in H. destruct lc0 as [| |o|o|o|o]; try discriminate; destruct o; try discriminate.
+    all: try (exists [LNotify]; split; [cbn; lia|]; split; [reflexivity|]; unfold run; cbn [fold_left]; unfold step; cbn [step_gen];
+              destruct cbmode0; cbn; rewrite ?orb_true_r; reflexivity).
+    (* LCased: with callbacks one step (notify), without callbacks clean then notify *)
+    all: destruct cbmode0;
+      [ exists [LNotify]; split; [cbn; lia|]; split; [reflexivity|]; unfold run; cbn [fold_left]; unfold step; cbn [step_gen]; cbn; rewrite ?orb_true_r; reflexivity
+      | exists [LClean; LNotify]; split; [cbn; lia|]; split; [reflexivity|]; unfold run; cbn [fold_left]; unfold step; cbn [step_gen]; unfold cb_busy; cbn; rewrite ?orb_true_r; reflexivity ].
+  - exists [LDefer2]. split; [cbn; lia|]. split; [reflexivity|]. unfold run; cbn [fold_left]. unfold step; cbn [step_gen]. rewrite H. reflexivity.
 Qed.
 
 (* REGRESSION: the order of Stream.close before the repair (Wait ; clean ; notify).  Callbacks installed; Close
